@@ -142,9 +142,74 @@ def shard(ctx):
                                          "salt": d["salt"]})
 
     run()
+    # deep documents: the parser accepts more nesting than recursive rules / executors can walk
+    for i, (shape, depth) in enumerate(DEEP):
+        if i % ctx.nshards == ctx.shard:
+            case = {"deep": depth, "shape": shape}
+            for sig, det in check_deep(case):
+                ctx.violation(sig, det, case)
+            ctx.case(key=("deep", shape, depth), nontrivial=True, sample=case)
+            ctx.event("deep-document:" + shape)
+
+
+DEEP = [(sh, d) for sh in ("fields", "inline-fragments", "fragment-chain", "list-value", "object-value")
+        for d in (40, 90, 125, 135, 150, 180, 210, 235, 245)]
+
+
+def deep_text(shape, d):
+    if shape == "fields":
+        return "{ " + "a { " * d + "n" + " }" * d + " }"
+    if shape == "inline-fragments":
+        return "{ " + "... on Query { " * d + "n" + " }" * d + " }"
+    if shape == "fragment-chain":
+        return "{ ...F0 } " + " ".join("fragment F%d on Query { a { ...F%d } }" % (i, i + 1) for i in range(d)) + " fragment F%d on Query { n }" % d
+    if shape == "list-value":
+        return "{ v(x: " + "[" * d + "1" + "]" * d + ") }"
+    return "{ o(x: " + "{r: " * d + "{k: 1}" + "}" * d + ") }"
+
+
+def check_deep(case):
+    """validate_ast returns for every document the parser accepts; a document it reports valid executes without raising."""
+    from py_gql import build_schema, process_graphql_query
+    from py_gql.exc import GraphQLSyntaxError
+    from py_gql.execution import Executor, BlockingExecutor
+    from py_gql.lang import parse
+    from py_gql.validation import validate_ast
+    schema = build_schema("scalar Any input In { r: In k: Int } type Query { a: Query n: Int v(x: Any): Int o(x: In): Int }")
+    schema.register_resolver("Query", "a", lambda root, ctx, info: {})
+    for f in ("n", "v", "o"):
+        schema.register_resolver("Query", f, lambda root, ctx, info, **kw: 1)
+    text = deep_text(case["shape"], case["deep"])
+    tag = "%s" % case["shape"]
+    try:
+        doc = parse(text)
+    except GraphQLSyntaxError:
+        return []
+    except Exception as e:  # noqa
+        return [("C05/deep/parse-raises-%s/%s" % (type(e).__name__, tag), "depth=%d" % case["deep"])]
+    try:
+        errors = validate_ast(schema, doc).errors
+    except BaseException as e:  # noqa
+        return [("C05/deep/validate-raises-%s/%s" % (type(e).__name__, tag), "depth=%d" % case["deep"])]
+    if errors:
+        return []
+    vios = []
+    for cls in (BlockingExecutor, Executor):
+        try:
+            res = process_graphql_query(schema, text, executor_cls=cls)
+            leaf = res.response().get("data")
+            while isinstance(leaf, dict) and "a" in leaf:
+                leaf = leaf["a"]
+            if not res.errors and (not isinstance(leaf, dict) or not set(leaf) & {"n", "v", "o"}):
+                vios.append(("C05/deep/validated-but-wrong-shape/%s" % tag, "depth=%d executor=%s errors=%r" % (case["deep"], cls.__name__, [str(x) for x in res.errors][:2])))
+        except BaseException as e:  # noqa
+            vios.append(("C05/deep/validated-but-execution-raises-%s/%s/%s" % (type(e).__name__, tag, cls.__name__), "depth=%d" % case["deep"]))
+    return vios
 
 
 def replay(case):
+    if "deep" in case:
+        return check_deep(case)
     vios, _ = check(case["spec"], case.get("mode", "code"), case["text"], case.get("payload", {}), case.get("salt", 0))
     return vios
 
